@@ -140,13 +140,13 @@ def _(Hh, rng):
 
 @g('mk_like')
 def _(Hh, rng):
-    n = pick(Hh, rng, lambda a: size(a) <= MAX_SIZE)
+    n = pick(Hh, rng, lambda a: size(a) <= MAX_SIZE and all(l.block_number > 0 for l in a.legs))
     return n and dict(a=n, out=Hh.fresh(), dseed=rng.randrange(10 ** 6), dtype=rng.choice(DTYPES))
 
 
 @g('from_ndarray')
 def _(Hh, rng):
-    n = pick(Hh, rng, lambda a: size(a) <= MAX_SIZE)
+    n = pick(Hh, rng, lambda a: size(a) <= MAX_SIZE and all(l.block_number > 0 for l in a.legs))
     return n and dict(a=n, out=Hh.fresh())
 
 
@@ -424,9 +424,13 @@ def _(Hh, rng):
     return dict(a=n, out=Hh.fresh(), k=k, mod=rng.choice(cand))
 
 
+def has_blocks(a):
+    return all(l.block_number > 0 for l in a.legs)   # LegPipe of a leg without blocks raises (np.concatenate([]))
+
+
 @g('sort_legcharge')
 def _(Hh, rng):
-    n = pick(Hh, rng, lambda a: size(a) <= MAX_SIZE)
+    n = pick(Hh, rng, lambda a: size(a) <= MAX_SIZE and has_blocks(a))
     if not n:
         return None
     a = Hh.env[n]
@@ -500,7 +504,7 @@ def _(Hh, rng):
 
 @g('combine')
 def _(Hh, rng):
-    n = pick(Hh, rng, lambda a: size(a) <= MAX_SIZE)
+    n = pick(Hh, rng, lambda a: size(a) <= MAX_SIZE and has_blocks(a))
     if not n:
         return None
     a = Hh.env[n]
@@ -535,7 +539,7 @@ def _(Hh, rng):
 
 @g('as_completely_blocked')
 def _(Hh, rng):
-    n = pick(Hh, rng, lambda a: size(a) <= MAX_SIZE)
+    n = pick(Hh, rng, lambda a: size(a) <= MAX_SIZE and has_blocks(a))
     return n and dict(a=n, out=Hh.fresh())
 
 
@@ -552,7 +556,10 @@ def _(Hh, rng):
     a = Hh.env[n]
     pipes = [i for i, l in enumerate(a.legs) if is_pipe(l)]
     axes = None if rng.random() < 0.5 else rng.sample(pipes, rng.randint(1, len(pipes)))
-    return dict(a=n, out=Hh.fresh(), axes=axes)
+    st = dict(a=n, out=Hh.fresh(), axes=axes)
+    if len(a._data) == 0:
+        st['tag'] = 'no-blocks'
+    return st
 
 
 @g('concatenate')
@@ -591,8 +598,8 @@ def _(Hh, rng):
     for n in names(Hh):
         for m in names(Hh):
             a, b = Hh.env[n], Hh.env[m]
-            if a.chinfo != b.chinfo:
-                continue
+            if a.chinfo != b.chinfo or not (no_zero_blocks(a) and no_zero_blocks(b)):
+                continue   # (the pure-Python tensordot cannot reshape zero-size blocks: C04's subject)
             pairs = contractible_pairs(a, b, False)
             if pairs:
                 cands.append((n, m, pairs))
@@ -705,6 +712,13 @@ def _(Hh, rng):
     a = Hh.env[n]
     r = a.rank
     bad = rng.choice([r, r, r + 1, -r - 1])
+    st = _malformed(Hh, rng, n, a, r, bad)
+    if bad == r:
+        st['tag'] = 'axis-eq-rank'
+    return st
+
+
+def _malformed(Hh, rng, n, a, r, bad):
     kind = rng.choice(['iproject', 'iswapaxes', 'itranspose', 'take_slice', 'iscale_axis', 'squeeze', 'gauge', 'permute',
                        'extend', 'trace', 'setitem', 'iproject2'])
     if kind == 'iproject':
